@@ -20,7 +20,8 @@
    The order in which references are rewritten is not fixed by the statement, so the specification is
    nondeterministic in it; the set of final values reachable from a root IS the set of admissible
    results for that root (for closed provider values the order does not matter -- that is what TLC
-   shows -- except for the two points below where the statement is silent).
+   shows: ConfResolveGen records which of the liberal rules below a behaviour met, checks/C12.py requires
+   that every root with more than one final value met one).
 
    Points where the statement is silent; the specification is exactly as liberal:
      (U1) "$$ ... protects the following text from expansion" does not delimit "following".  A
@@ -213,14 +214,15 @@ Finish ==
   /\ Mandatory(cur.s, root.def) = {}
   /\ cur' = [t |-> "str", s |-> Unesc(cur.s, 1)] /\ phase' = "done" /\ UNCHANGED <<root, wrap, emb>>
 
-OptNonRefErr ==                                                                     \* (U3)
+\* a "${NAME}" that is not a reference (no default scheme) sits inside an unescaped "${ ... :... }"
+NonRefNested ==
   /\ phase = "run" /\ cur.t = "str" /\ ~root.def
   /\ \E p \in ReadyPairs(cur.s) \ RefPairs(cur.s, FALSE) :
        \E i0 \in 1..(p[1] - 1) : \E j2 \in (p[2] + 1)..Len(cur.s) :
           /\ UnescOpen(cur.s, i0) /\ cur.s[j2] = "}"
           /\ \A m \in i0..p[1] : cur.s[m] # "}"
           /\ HasColon(SubSeq(cur.s, i0 + 2, j2 - 1))
-  /\ Fail("dollar")
+OptNonRefErr == NonRefNested /\ Fail("dollar")                                      \* (U3)
 
 SameContent(s, P) == \A p, q \in P : Content(s, p) = Content(s, q)
 \* the full step relation (parallel rewriting of equal references is a sequence of single rewrites)
